@@ -47,6 +47,9 @@ func globalInit() {
 		round.SetupEntity(memorystore.GetStorageProvider())
 		round.SetupVRFShareEntity(memorystore.GetStorageProvider())
 		client.SetupEntity(memorystore.GetStorageProvider())
+		miner.SetupNotarizationEntity()
+		miner.SetupM2MSenders()
+		miner.SetupM2SSenders()
 	})
 }
 
@@ -72,6 +75,8 @@ type Opts struct {
 	IDs  []string
 	GenesisSeed int64
 	ValidationBatchSize int
+	// SelfKey is this node's own signing key (with the private part); default Keys[Self].
+	SelfKey *encryption.BLS0ChainScheme
 }
 
 // New builds a fresh chain + miner chain. Everything a previous fixture registered globally is replaced.
@@ -92,8 +97,10 @@ func New(o Opts) *Fix {
 		}
 		nd := node.Provider()
 		nd.Type = node.NodeTypeMiner
-		nd.Host = "m" + strconv.Itoa(i)
-		nd.Port = 7000 + i
+		nd.Host = "127.0.0.1" // nothing listens there: a broadcast the handlers start fails at once
+		nd.Port = 1 + i
+		nd.N2NHost = "127.0.0.1"
+		_ = strconv.Itoa
 		nd.Status = node.NodeStatusActive
 		if err := nd.SetSignatureScheme(k); err != nil { // sets PublicKey and ID = Hash(public key bytes)
 			panic(err)
@@ -108,6 +115,11 @@ func New(o Opts) *Fix {
 	}
 	node.Self = &node.SelfNode{}
 	node.Self.Node = f.Nodes[o.Self]
+	sk := o.SelfKey
+	if sk == nil {
+		sk = f.Keys[o.Self]
+	}
+	node.Self.SetSignatureScheme(sk)
 
 	mb := block.NewMagicBlock()
 	mb.Miners = np
@@ -148,6 +160,11 @@ func New(o Opts) *Fix {
 	gb.SetBlockState(block.StateNotarized)
 	gb.SetStateStatus(block.StateSuccessful)
 	gb.ClientState = util.NewMerklePatriciaTrie(util.NewMemoryNodeDB(), 0, nil, statecache.NewEmpty())
+	// the latest finalized magic block is served by a worker goroutine of the chain
+	go mc.StartLFMBWorker(f.Ctx)
+	gb.MagicBlock = mb
+	mb.Hash = mb.GetHash()
+	mc.SetLatestFinalizedMagicBlock(gb)
 	r0 := f.Round(0, seed)
 	gb = mc.AddRoundBlock(r0, gb)
 	mc.Chain.SetLatestFinalizedBlock(gb)
